@@ -18,16 +18,22 @@ RULE = ("kinds: kernel (dbal_fast_gauss_scoring_vectorized on NaN/0-padded dense
         "in {1, 1/2, 2}; rng.choice recorded and replayed into the model (all C(n,3) triples enumerated, a minority sub-sampled).  "
         "Non-trivial: everything except malformed; distinct by case description.")
 THEOREMS = {
-    "C05_vectorised_eq_direct": "heteroscedastic entry point on 0/NaN-padded plates = map of the direct one-plate estimator (all plate lists, all triples lists, all ln/exp)",
-    "C05_kernel_on_padding": "the kernel applied to ANY arrays whose entries agree with the plates on the plates' own cells and are 0 / NaN elsewhere = direct estimator per plate",
-    "C05_alone": "scorer result = each key paired with the direct estimator of ITS plate on a reference enumeration, whatever the other plates, max_chunk, and per-group draws (permutations of the reference)",
-    "C05_alone_pairwise": "same plate in two different scorer calls (other plates, max_chunk, draws differ) gets the same score",
-    "C05_triple_order_irrelevant": "direct estimator invariant under permutation of the enumerated triples",
-    "C05_wrappers_agree": "homoscedastic wrapper = heteroscedastic wrapper on row-constant variances",
-    "C05_perm_experiments": "permuting the experiments (columns) of a plate leaves its score unchanged",
-    "C05_finite_iff": "score is -inf iff every enumerated triple has zero summed distance",
-    "C05_relabel": "relabelling posterior samples consistently in means, variances and a symmetric matrix leaves the score unchanged when all triples are enumerated",
-    "C05_checked_ok": "on well-formed input the ValueError checks pass and the entry point returns the pure value",
+    "C05_vectorised_eq_direct": "kernel on the 0-padded means / NaN-padded variances of any plate list = map of the direct one-plate double loop (all T>0, all plate lists incl. size-0/1 plates and a single plate, all means/variances/matrices/distance_factor, all triple lists, all ln/exp)",
+    "C05_kernel_on_padding": "kernel on ANY dense arrays holding the plates (own cells agree, 0/NaN elsewhere, any width >= widest plate) = direct estimator per plate",
+    "C05_padding_represents": "pad_ragged_arrays_to_dense_array (0 / NaN) produces such a representation",
+    "C05_alone_in_list": "score at a plate's position in any plate list = its score when scored alone",
+    "C05_triple_order_irrelevant": "direct estimator invariant under permutation of the enumerated triples (logsumexp order-independent)",
+    "C05_alone": "scorer (any max_chunk>=1, array_split sub-groups, one draw per group each a permutation of a reference enumeration) = every key paired with the direct estimator of ITS plate, in key order",
+    "C05_alone_pairwise": "same plate+key in two scorer calls with different other plates / sizes / max_chunk / order / draws gets the same score",
+    "C05_wrappers_agree": "homoscedastic wrapper = heteroscedastic wrapper on row-constant variances, as coded",
+    "C05_homo_eq_direct": "homoscedastic wrapper = direct estimator per plate",
+    "C05_perm_experiments": "permuting the experiments (columns of means and variances) of one plate leaves all scores of the call unchanged",
+    "C05_perm_experiments_direct": "same, for the direct estimator",
+    "C05_finite_iff": "score != -inf iff some enumerated triple has non-zero summed distance",
+    "C05_relabel": "relabelling posterior samples by any permutation consistently in means, variances and a symmetric matrix leaves every score unchanged when both runs enumerate all triples exactly once (any order)",
+    "C05_relabel_direct": "same, for the direct estimator",
+    "C05_scorer_checked_ok": "the scorer with its checks and the unranking of one recorded draw per sub-group (what the wire entry point runs) = the pure scorer of C05_alone on well-formed input",
+    "C05_checked_ok": "on well-formed input (T>=3, non-empty plate list, square T x T matrix) no ValueError check fires and the heteroscedastic entry point returns the pure value on the unranked draw",
 }
 ASSUMPTIONS = [
     "ln / exp are oracles (libm on the nearest double) in the model; log1p(s) is rendered ln(1+s); + - * / are exact in the model, float64 in the code (tolerance 1e-9 * max(1,|score|))",
@@ -244,7 +250,7 @@ def _plates(rng, T, n_plates, min_size, homo):
 
 def gen(rng, tier):
     mult = 1 if tier == "quick" else 8
-    plan = [("hetero", 110), ("kernel", 50), ("homo", 60), ("scorer", 110)]
+    plan = [("hetero", 200), ("kernel", 90), ("homo", 100), ("scorer", 200)]
     for kind, cnt in plan:
         for _ in range(cnt * mult):
             T = rng.choice([3, 3, 4, 4, 5, 5, 6])
@@ -510,3 +516,45 @@ def shrink(desc):
 
 def signature(desc, res):
     return "%s:%s" % (desc.get("kind"), (res.get("pred") or res.get("disagree") or "")[:40])
+
+
+_MUTANTS = {
+    "padding-mask-dropped": ("mask[:, idx1, :] * 0.5", "0.5"),
+    "triple-index-mixup": ("d13 = padded_variances[:, idx2, :]", "d13 = padded_variances[:, idx3, :]"),
+    "distance-pair-mixup": ("+ distance_matrix[idx1, idx3]", "+ distance_matrix[idx1, idx2]"),
+    "logsumexp-wrong-axis": ("axis=1)", "axis=0)"),
+}
+
+
+def extra(tier):
+    """sensitivity self-test on every run: realistic mutants of the kernel (patched in memory, never on disk) must be
+    flagged by the property predicate on the generated stream."""
+    import inspect
+    import random
+    from batchie.scoring import gaussian_dbal as G
+
+    out = []
+    orig = G.dbal_fast_gauss_scoring_vectorized
+    try:
+        src = inspect.getsource(orig)
+    except Exception as e:  # noqa
+        return [("mutants", True, "source not available (%s); skipped" % e)]
+    descs = [d for d in gen(random.Random(20260926), "quick") if d["kind"] == "hetero"][:30]
+    for name, (a, b) in _MUTANTS.items():
+        if a not in src:
+            out.append(("mutant-" + name, True, "mutation site not present in the current source; skipped"))
+            continue
+        ns = dict(G.__dict__)
+        try:
+            exec(compile(src.replace(a, b, 1), "<mutant %s>" % name, "exec"), ns)
+            G.dbal_fast_gauss_scoring_vectorized = ns["dbal_fast_gauss_scoring_vectorized"]
+            caught = 0
+            for d in descs:
+                try:
+                    caught += 1 if run(d)["pred"] else 0
+                except Exception:  # noqa
+                    caught += 1
+        finally:
+            G.dbal_fast_gauss_scoring_vectorized = orig
+        out.append(("mutant-" + name, caught > 0, "%d/%d cases flagged by the predicate" % (caught, len(descs))))
+    return out
